@@ -56,3 +56,36 @@ Print Assumptions bounds_are_wrap_free.
 
 Example bound_nonzero_somewhere : block_bound 100000 = 92 + 100008 /\ stream_bound 100000 <> 0.
 Proof. vm_compute. split; [reflexivity|discriminate]. Qed.
+
+(** The container.  [stream_bytes] is the model of what the single-threaded
+    Stream encoder writes for the plain LZMA2 chain (Stream Header, Blocks with
+    header / LZMA2 payload / padding / Check, Index, Stream Footer; every CRC32,
+    size field and padding computed from the data); [stream_decode] is the
+    decoder specification written from doc/xz-file-format.txt.  The
+    specification accepts every such Stream, consumes exactly its bytes and
+    returns the concatenated Block contents - so all the metadata the model
+    encoder writes is truthful.  Checks None, CRC32 and CRC64 (the length of a
+    SHA-256 value is not proved yet).  That the real encoder writes exactly
+    these bytes is checked per run (xzsyms). *)
+From XZ Require Import Lzma Lzma2 LzmaEnc LzmaRun Lzma2Enc XzEnc.
+Theorem xz_stream_is_valid_and_lossless :
+  forall fuel strict check, check_ok check ->
+  forall bs rest,
+  Forall (block_ok fuel strict) bs ->
+  Forall rec_ok (recs_of check bs) -> lenN (recs_of check bs) <= VLI_MAX ->
+  lenN (index_bytes (recs_of check bs)) <= 17179869184 ->
+  (length bs < Pos.to_nat fuel)%nat ->
+  let x := stream_decode fuel strict true (xz_init (stream_bytes check bs ++ rest)) in
+  xstatus x = Finished /\ xin x = rest /\ xused x = lenN (stream_bytes check bs) /\
+  xz_output x = concat (map b_data bs).
+Proof. exact stream_decode_encoded. Qed.
+Print Assumptions xz_stream_is_valid_and_lossless.
+
+(* non-vacuity: a two-Block Stream with CRC64, computed *)
+Definition ex_block1 : blockspec :=
+  {| b_db := 0; b_chunks := [KL 3 93 [SLit 97; SLit 98; SLit 99; SMatch 2 5; SShortRep]; KU false [1; 2; 3; 4]] |}.
+Definition ex_block2 : blockspec := {| b_db := 8; b_chunks := [KU true [7; 7; 7]] |}.
+Example xz_example_decodes :
+  xz_decode_single 64 true (stream_bytes 4 [ex_block1; ex_block2] ++ [9; 9]) =
+  (Finished, [97; 98; 99; 97; 98; 99; 97; 98; 99; 1; 2; 3; 4; 7; 7; 7], lenN (stream_bytes 4 [ex_block1; ex_block2])).
+Proof. vm_compute. reflexivity. Qed.
